@@ -274,6 +274,8 @@ def run(prog, ctx):
                     cal = site.get("callee") or ""
                     if cal.rsplit("::", 1)[-1] in ("to_le_bytes", "to_be_bytes", "to_ne_bytes") and ("<impl %s>" % ty) in cal:
                         narrow += 1
+                    elif cal.rsplit("::", 1)[-1] in ("from", "into") and isinstance(site.get("dest"), int) and g.local_ty(site["dest"]) in ("i64", "i128"):
+                        wide += 1       # `i64::from(self)`: the lossless (sign-extending) conversion
                     else:
                         other += 1
         ok = True if wide else (False if narrow and not other else None)
